@@ -45,6 +45,13 @@ def _include_options(sites, src, dst):
         opts.append((('site X', f'roadm {inner[0]}'), ('STRICT', 'LOOSE')))
     # a destination-side ROADM as include (always satisfiable)
     opts.append(((f'roadm {dst}',), ('STRICT',)))
+    # line elements: a fibre and an amplifier leaving the source site, and the same of the OPPOSITE direction (cannot be crossed)
+    for x in sites:
+        if x != src:
+            opts.append(((f'fiber {src}{x}',), ('STRICT',)))
+            opts.append(((f'edfa {src}{x}',), ('LOOSE',)))
+            opts.append(((f'fiber {x}{src}',), ('STRICT',)))
+            opts.append(((f'fiber {x}{src}', f'edfa {x}{src}'), ('LOOSE', 'LOOSE')))
     return opts
 
 
